@@ -101,7 +101,7 @@ DEC_POOL = ["-7.5", "-12.25", "-1.0", "-30.125", "-10.5", "-100.01", "-2.75", "1
 NEG_NONZERO_DEC = ["-7.5", "-12.25", "-1.0", "-30.125", "-10.5", "-100.01", "-2.75", "-20.50"]
 INT_POOL = [-1, -8, -16, -255, -20000, 0, 8, 64, 4096, 65535]
 STR_POOL = ["Chatot's spot", 'say "hi"', "both ' and \"", "'", '"', "''", '""', "it's\nnew line", "", " lead", "trail ", "tab\tin", "a" + "'" * 3 + "b", "x" + '"' * 3 + "y",
-            "ends with '", 'ends with "', "äß 'é' 😀", "// no comment", "/* none */"]
+            "ends with '", 'ends with "', "äß 'é' 😀", "// no comment", "/* none */", "cafe\u0301 か\u3099", "\u1100\u1161 \ufb01 \u2126 \u212b", "\uac00\u00e9 \u00bd"]
 NAME_POOL = ["Chatot's spot", 'the "big" one', "a'b\"c", "'", '"', "plain", "", "it's", 'q"', "é's"]
 POS_NUMS = ["0", "12", "-3", "3.5", "7.0", "0.5", "-2.5", "255", ".5", "-12.5", "20.5", "9.50"]
 LIB_NAMES = ["lib.exps", "it's lib.exps", 'the "lib".exps', "äß.exps", "a'b\"c.exps"]
